@@ -119,7 +119,7 @@ def check(ctx) -> Result:
         sub_ok = any(isinstance(x, ast.Subscript) and src(x.value) == part.params()[0] and ix[0] in list(ast.walk(x.slice)) for r in rets for x in ast.walk(r.value))
         if ro == {"out_state"} and co == {"in_state"} and sub_ok:
             res.ok("M4-rows-outputs-cols-inputs", "partition", part.site(), part.qualname, "rows repeated by output occupations, columns by input occupations (U[out, in])")
-        elif not ro or not co or not sub_ok:
+        elif not (ro == {"in_state"} and co == {"out_state"}) or not sub_ok:
             res.frozen(False, "M4-rows-outputs-cols-inputs", "partition", part.site(), part.qualname, "", f"row/column index lists not recognised (rows from {sorted(ro)}, columns from {sorted(co)})", construct=src(rets[0].value))
         else:
             res.bad("M4-rows-outputs-cols-inputs", "partition", part.site(), part.qualname, f"sub-matrix rows come from {sorted(ro)} and columns from {sorted(co)}: the transpose amplitude is computed", construct=src(rets[0].value))
